@@ -18,6 +18,7 @@ ops (all JSON lists, c = client index):
   ["inject", c, side, phase, bodyhex]   a fabricated `message` frame queued to client c
   ["fail_initial", c]          the initial connection attempt fails (no connection was ever made)
   ["svc_stopped", c]           ClientService.stopService() completes
+  ["server_welcome_error", m]  the server starts (m: str) / stops (m: None) sending `error` in its welcome
 """
 import json
 import os
@@ -332,6 +333,14 @@ class World:
             name = type(f.value).__name__ if f is not None else "logged-error"
             c.internal.append((name, "in eventual turn", name))
             return name
+        return "ok"
+
+    def server_welcome_error(self, msg=None):
+        """the server operator (un)sets the welcome `error` (takes effect on the next connection)"""
+        if msg is None:
+            self.server._welcome.pop("error", None)
+        else:
+            self.server._welcome["error"] = msg
         return "ok"
 
     def msg_frames(self, ci):
